@@ -406,3 +406,60 @@ def mem_dtype(ctx: Ctx) -> None:
                     ok = got == out_dtype
                     ctx.ob(f, am, ok, f"`{unparse(am, 60)}` sizes chunks of this operation's output grid; its dtype must be the output dtype `{out_dtype}`" + ("" if ok else f" — it uses `{got}`: a widening reduction keeps reduced chunks that are larger than declared"), sel=f"dtype:{unparse(am, 50)}")
     ctx.need(n >= 1, "no array_memory(<dtype>, <output chunks>) declaration found")
+
+
+@rule("MEM-STALE-1", props=["C03"], floor=3)
+def mem_stale(ctx: Ctx) -> None:
+    """the extra memory an operation declares (extra_projected_mem=) from the chunk size of one
+    of its own operands is computed from the operand *as passed*: not from a value taken before
+    the operand variable was rebound (x = flatten(x), x = rechunk(x), … change the chunks)"""
+    repo = ctx.repo
+    n = 0
+    ATTRS = ("chunkmem", "chunksize", "chunks", "nbytes", "shape", "dtype", "size")
+    for f in repo.functions():
+        mq = f.module.qual
+        if not mq.startswith(("cubed.array_api.", "cubed.array.", "cubed.core.ops", "cubed.core.gufunc", "cubed.random")):
+            continue
+        fl = cfg = None
+        for c in f.own_nodes():
+            if not isinstance(c, ast.Call):
+                continue
+            e = kwarg(c, "extra_projected_mem")
+            if e is None:
+                continue
+            operands = {a.id for a in c.args if isinstance(a, ast.Name)}
+            if not operands:
+                continue
+            if fl is None:
+                fl, cfg = flow_of(repo, f), cfg_of(f)
+            if not cfg.has(c):
+                continue
+            at = cfg.node_of(c)
+            # expand local names of the declaration to their definitions, remembering where each
+            # piece was evaluated
+            seen, work, pieces = set(), [(e, at)], []
+            while work and len(seen) < 40:
+                x, at_ = work.pop()
+                pieces.append((x, at_))
+                for nm in [y for y in ast.walk(x) if isinstance(y, ast.Name) and isinstance(y.ctx, ast.Load) and id(y) not in fl.comp_bind]:
+                    for s_ in fl.rdefs(nm.id, at_):
+                        if s_.kind == "assign" and s_.value is not None and id(s_.value) not in seen:
+                            seen.add(id(s_.value))
+                            work.append((s_.value, s_.node))
+            for x, at_ in pieces:
+                for a_ in ast.walk(x):
+                    if isinstance(a_, ast.Attribute) and a_.attr in ATTRS and isinstance(a_.value, ast.Name) and a_.value.id in operands:
+                        X = a_.value.id
+                        n += 1
+                        here = {d_.node for d_ in fl.rdefs(X, at_)}
+                        there = {d_.node for d_ in fl.rdefs(X, at)}
+                        stale = bool(there - here)
+                        ctx.ob(
+                            f,
+                            c,
+                            not stale,
+                            f"extra_projected_mem of `{unparse(c.func, 30)}` reads `{unparse(a_)}` of its operand `{X}`"
+                            + ("" if not stale else f" — evaluated before `{X}` was rebound: the declaration describes the previous chunks, the task works on the new ones"),
+                            sel=f"stale:{ctx.anon(f, c.func, 30)}:{a_.attr}",
+                        )
+    ctx.need(n >= 3, f"only {n} extra_projected_mem declarations that read an operand found")
